@@ -9,20 +9,64 @@ open Capella.Query
 
 /-! ### back-reference candidates -/
 
-theorem backrefOk_A (hs : List Handler) (b : BackRef) (hok : backrefOk hs b = true) :
-    ∀ h ∈ hs, b.targets.contains h.cls = true → b.builts.contains (some h.xt) = true := by
-  intro h hh hc
-  simp only [backrefOk, Bool.and_eq_true, List.all_eq_true] at hok
-  have := hok.1.2 h hh
-  have hc' : h.cls ∈ b.targets := by simpa using hc
-  simpa [hc'] using this
-
 theorem backrefOk_B (hs : List Handler) (b : BackRef) (hok : backrefOk hs b = true) :
     ∀ x ∈ b.builts, ∀ h ∈ hs, some h.xt = x → isInst h b.targets = true := by
   intro x hx h hh he
   simp only [backrefOk, Bool.and_eq_true, List.all_eq_true] at hok
   have := hok.2 x hx h hh
   simpa [he] using this
+
+theorem backrefOk_len (hs : List Handler) (b : BackRef) (hok : backrefOk hs b = true) :
+    b.builts.length = b.targets.length := by
+  simp only [backrefOk, Bool.and_eq_true] at hok
+  simpa using hok.1.1
+
+/-- a registered type of a class is among what `search` resolves the class to -/
+theorem mem_resolveClass (hs : List Handler) (h : Handler) (hh : h ∈ hs) (bu : Option Nat) :
+    h.xt ∈ resolveClass hs h.cls bu := by
+  unfold resolveClass
+  have hm : h.xt ∈ (hs.filter (fun h' => h'.cls == h.cls)).map (·.xt) :=
+    List.mem_map.mpr ⟨h, List.mem_filter.mpr ⟨hh, by simp⟩, rfl⟩
+  simp only []
+  split
+  · rename_i he
+    rw [List.isEmpty_iff] at he
+    rw [he] at hm
+    cases hm
+  · exact hm
+
+theorem mem_zipWith_flatten (f : Nat → Option Nat → List Nat) :
+    ∀ (ts : List Nat) (bs : List (Option Nat)), bs.length = ts.length → ∀ t ∈ ts, ∀ x,
+      (∀ bu, x ∈ f t bu) → x ∈ (List.zipWith f ts bs).flatten := by
+  intro ts
+  induction ts with
+  | nil => intro bs _ t ht; cases ht
+  | cons a r ih =>
+    intro bs hl t ht x hx
+    cases bs with
+    | nil => simp at hl
+    | cons b0 br =>
+      simp only [List.zipWith_cons_cons, List.flatten_cons, List.mem_append]
+      cases List.mem_cons.mp ht with
+      | inl he => subst he; exact Or.inl (hx b0)
+      | inr hr => exact Or.inr (ih br (by simpa using hl) t hr x hx)
+
+theorem mem_zipWith_flatten_inv (f : Nat → Option Nat → List Nat) :
+    ∀ (ts : List Nat) (bs : List (Option Nat)) (x : Nat), x ∈ (List.zipWith f ts bs).flatten →
+      ∃ t ∈ ts, ∃ bu ∈ bs, x ∈ f t bu := by
+  intro ts
+  induction ts with
+  | nil => intro bs x h; simp at h
+  | cons a r ih =>
+    intro bs x h
+    cases bs with
+    | nil => simp at h
+    | cons b0 br =>
+      simp only [List.zipWith_cons_cons, List.flatten_cons, List.mem_append] at h
+      rcases h with h | h
+      · exact ⟨a, List.mem_cons_self .., b0, List.mem_cons_self .., h⟩
+      · obtain ⟨t, ht, bu, hbu, hx⟩ := ih br x h
+        exact ⟨t, List.mem_cons_of_mem _ ht, bu, List.mem_cons_of_mem _ hbu, hx⟩
 
 /-- closed under subclassing: every registered type whose class is an instance of a target class is searched -/
 theorem candidates_closed (hs : List Handler) (b : BackRef) (hok : backrefOk hs b = true)
@@ -34,17 +78,19 @@ theorem candidates_closed (hs : List Handler) (b : BackRef) (hok : backrefOk hs 
     | nil => exact absurd hb hne
     | cons _ _ => rfl
   rw [this]
-  simp only [Bool.false_eq_true, if_false, List.mem_append, List.mem_filterMap, List.mem_map, List.mem_filter, id]
+  simp only [Bool.false_eq_true, if_false, List.mem_append, List.mem_map, List.mem_filter]
   by_cases hc : b.targets.contains h.cls = true
   · left
-    have := backrefOk_A hs b hok h hh hc
-    exact ⟨some h.xt, by simpa using this, rfl⟩
+    have hc' : h.cls ∈ b.targets := by simpa using hc
+    exact mem_zipWith_flatten (resolveClass hs) b.targets b.builts (backrefOk_len hs b hok) h.cls hc' h.xt
+      (fun bu => mem_resolveClass hs h hh bu)
   · right
     have hc' : ¬ h.cls ∈ b.targets := by simpa using hc
     exact ⟨h, ⟨hh, by simp [hi, hc']⟩, rfl⟩
 
-/-- nothing else is searched: a searched type is the type `build_xtype` gives for a target class —
-and then whatever is registered under it is an instance — or the registered type of an instance -/
+/-- nothing else is searched: a searched type is registered for a target class itself, or is the
+type derived for an unregistered target class — and then whatever is registered under it is an
+instance — or is the registered type of an instance -/
 theorem candidates_sound (hs : List Handler) (b : BackRef) (hok : backrefOk hs b = true) (x : Nat)
     (hx : x ∈ candidates hs b) :
     (some x ∈ b.builts ∧ ∀ h ∈ hs, h.xt = x → isInst h b.targets = true) ∨
@@ -52,11 +98,27 @@ theorem candidates_sound (hs : List Handler) (b : BackRef) (hok : backrefOk hs b
   unfold candidates at hx
   split at hx
   · cases hx
-  · simp only [List.mem_append, List.mem_filterMap, List.mem_map, List.mem_filter, id] at hx
-    rcases hx with ⟨o, ho, he⟩ | ⟨h, ⟨hh, hp⟩, he⟩
-    · left
-      subst he
-      exact ⟨ho, fun h hh hxe => backrefOk_B hs b hok (some x) ho h hh (by rw [hxe])⟩
+  · simp only [List.mem_append, List.mem_map, List.mem_filter] at hx
+    rcases hx with hz | ⟨h, ⟨hh, hp⟩, he⟩
+    · obtain ⟨t, ht, bu, hbu, hxr⟩ := mem_zipWith_flatten_inv (resolveClass hs) b.targets b.builts x hz
+      unfold resolveClass at hxr
+      simp only [] at hxr
+      split at hxr
+      · left
+        cases bu with
+        | none => simp at hxr
+        | some v =>
+          simp only [Option.toList_some, List.mem_cons, List.not_mem_nil, or_false] at hxr
+          subst hxr
+          exact ⟨hbu, fun h hh hxe => backrefOk_B hs b hok (some x) hbu h hh (by rw [hxe])⟩
+      · right
+        obtain ⟨h, hm, he⟩ := List.mem_map.mp hxr
+        obtain ⟨hh, hcls⟩ := List.mem_filter.mp hm
+        refine ⟨h, hh, he, ?_⟩
+        unfold isInst
+        simp only [List.any_eq_true, Bool.or_eq_true]
+        have hct : h.cls = t := by simpa using hcls
+        exact ⟨t, ht, Or.inl (by rw [hct]; simp)⟩
     · right
       simp only [Bool.and_eq_true] at hp
       exact ⟨h, hh, he, hp.1⟩
